@@ -1095,3 +1095,101 @@ def _positions_by_slice(repo, g, target="original_coefficient_positions"):
     if not isinstance(got, (list, dict)):
         return None
     return (got, [1, 2], "")
+
+
+@rule(
+    "KERNEL-ONCE",
+    ["C06"],
+    "compute_ir lists, for every integral, the cell types it has kernels for; the integrand map is keyed by (cell type, "
+    "quadrature rule), so the collection must be duplicate-free by construction (set / set comprehension / dict.fromkeys / "
+    "sorted(set(..))) - otherwise an integral with two rules appears twice under its id and is added twice; the form IR "
+    "takes these domains per integral name",
+    min_instances=2,
+)
+def kernel_once(repo, res):
+    rep = repo.mod("ffcx.ir.representation")
+    f = rep.func("compute_ir")
+    res.functions.add(f.key)
+    key = f"{f.key}:integral_domains:duplicate-free"
+    res.ob(key)
+    tgt = None
+    for n in ast.walk(f.node):
+        if isinstance(n, ast.Assign) and isinstance(n.targets[0], ast.Name) and n.targets[0].id == "integral_domains":
+            tgt = n
+    if tgt is None or not isinstance(tgt.value, ast.DictComp):
+        raise AnalysisError("compute_ir: integral_domains is not built by a dict comprehension")
+    v = tgt.value.value
+    t = ast.unparse(v)
+    if "integrand" not in t:
+        raise AnalysisError("compute_ir: integral_domains values are not derived from the integrand keys")
+
+    def dedup(e) -> bool:
+        if isinstance(e, (ast.SetComp, ast.Set)):
+            return True
+        if isinstance(e, ast.Call):
+            nm = call_name(e) or ""
+            if nm in ("set", "frozenset"):
+                return True
+            if nm in ("sorted", "list", "tuple") and e.args:
+                return dedup(e.args[0])
+            if nm in ("dict.fromkeys",):
+                return True
+            if nm.endswith("unique"):
+                return True
+        return False
+
+    if not dedup(v):
+        res.fail(key, f"integral_domains[name] = `{t[:90]}` keeps one entry per (cell type, quadrature rule) key: an integral lowered with two rules "
+                 "(m*ds(7, degree=2) + 3*m*ds(7, degree=4)) lists its kernel twice under id 7 and is added twice by the assembler", rep.line(tgt))
+    key = f"{f.key}:integral_domains:first-key-component"
+    res.ob(key)
+    if not re.search(r"\b(\w+)\[0\] for \1 in [\w.]+\.integrand(\.keys\(\))?", t):
+        res.fail(key, f"the cell type is not taken as the first component of the integrand keys in `{t[:80]}`", rep.line(tgt))
+
+
+@rule(
+    "RULE-ENTITY-TAG",
+    ["C06", "C11"],
+    "_group_integrands_by_quadrature_rule keys every rule by the type of the integration entity (cell for cell integrals, "
+    "facet type for facet integrals, ridge type for ridge integrals): in the custom and vertex scheme branches the key of "
+    "each `rules[...]` store must be re-derived from basix.cell.subentity_types(cell)[-2] / [-3] under the facet / ridge "
+    "tests, as the default branch gets it from create_quadrature_points_and_weights; the key becomes the kernel's cell-type tag",
+    min_instances=2,
+)
+def rule_entity_tag(repo, res):
+    rep = repo.mod("ffcx.ir.representation")
+    f = rep.func("_group_integrands_by_quadrature_rule")
+    res.functions.add(f.key)
+    stores = [n for n in ast.walk(f.node) if isinstance(n, ast.Assign) and isinstance(n.targets[0], ast.Subscript)
+              and isinstance(n.targets[0].value, ast.Name) and n.targets[0].value.id == "rules"]
+    if len(stores) < 2:
+        raise AnalysisError("_group_integrands_by_quadrature_rule: fewer than two explicit `rules[...] =` stores (custom, vertex)")
+    for n_, st in enumerate(stores):
+        key = f"{f.key}:rules-key:{n_}"
+        res.ob(key)
+        k = st.targets[0].slice
+        branch = None
+        for b in ast.walk(f.node):
+            if isinstance(b, ast.If) and "scheme ==" in ast.unparse(b.test) and any(x is st for s_ in b.body for x in ast.walk(s_)):
+                branch = b
+        if branch is None:
+            raise AnalysisError("rules store outside a scheme branch")
+        scheme = ast.unparse(branch.test)
+        if not isinstance(k, ast.Name):
+            res.fail(key, f"under `{scheme}` the rule is keyed by `{ast.unparse(k)}`", rep.line(st))
+            continue
+        defs = [a for s_ in branch.body for a in ast.walk(s_) if isinstance(a, ast.Assign) and any(isinstance(t, ast.Name) and t.id == k.id for t in a.targets)]
+        facet_ok = ridge_ok = False
+        for b in ast.walk(branch):
+            if isinstance(b, ast.If):
+                t = ast.unparse(b.test)
+                inner = [a for s_ in b.body for a in ast.walk(s_) if isinstance(a, ast.Assign) and any(isinstance(tt, ast.Name) and tt.id == k.id for tt in a.targets)]
+                srcs = " ".join(ast.unparse(s_) for s_ in b.body)
+                if "facet" in t and "integral_type" in t and inner and re.search(r"subentity_types\([^)]*\)\[-2\]", srcs):
+                    facet_ok = True
+                if "ridge" in t and "integral_type" in t and inner and re.search(r"subentity_types\([^)]*\)\[-3\]", srcs):
+                    ridge_ok = True
+        if k.id == "cell_type" or not defs or not (facet_ok and ridge_ok):
+            res.fail(key, f"under `{scheme}` the rule (and so the kernel) is tagged `{k.id}`" + (" = the integration cell" if k.id == "cell_type" or not defs else "")
+                     + f" without re-deriving the {'facet' if not facet_ok else 'ridge'} type: m*ds(custom rule) on a quadrilateral mesh yields a kernel tagged "
+                     "quadrilateral next to default-rule kernels tagged interval, so a dispatcher by (type, id, cell type) misses it", rep.line(st))
